@@ -29,14 +29,16 @@ func (check) Cases(tier string) int {
 }
 
 func (check) Rule() string {
-	return "pairs (A, B = mutation of A) of trees whose 3 keys repeat at every depth, merged with PathSep(\".\"), one of 5 global policies and one or two Field{Merge,Replace,Append,Prepend}Values options; field paths: concrete paths of 1-3 names/indices (present or absent, addressing objects, lists, list positions, primitives), **.name, *.name over a top-level list, name.*.name. Compared with the merge model run with policy(q) = per-field policy if its path matches a prefix of q (longest match wins) else the global one, plus two model-independent laws (outside the subtree nothing changes; a path matching nothing changes nothing). Non-trivial = the field option changes the model result w.r.t. the plain global merge; distinct = distinct (global, options, A, B)."
+	return "pairs (A, B = mutation of A) of trees whose 3 keys repeat at every depth, merged with PathSep(\".\"), one of 5 global policies and a pool of one to three Field{Merge,Replace,Append,Prepend}Values options; field paths: concrete paths of 1-3 names/indices (present or absent, addressing objects, lists, list positions, primitives), **.name, *.name over a top-level list, name.*.name; combinations: concrete with concrete, concrete with **.name, **.name with **.name. List-bearing subtrees are planted at the option paths and at decoys (the same names in the same order at another depth). Call 1 uses the whole pool; in half of the cases one or two further calls reuse the SAME Option values in another selection/order, under another global policy or with swapped operands. Every result is compared with the merge model run with policy(q) = policy of the option whose subtree is the innermost one containing q, else the global one; reused Option values are compared with a twin call made with newly created ones; plus two model-independent laws (outside the named subtrees - for **.name: outside everything called name - nothing changes; a path matching nothing changes nothing). Non-trivial = the options change the model result w.r.t. the plain global merge; distinct = distinct (global, options, A, B)."
 }
 
 func (check) Assumptions() []string {
 	return []string{
 		"reading fixed in DESIGN.md: the policy in force at a node decides how that node's dictionary and list parts combine (so a global ReplaceValues above the path leaves nothing for the field option to merge with)",
 		"wildcard shapes other than **.name, *.name (top-level list) and name.*.name are not generated: their meaning is not settled by statement or documentation",
-		"PathSep precedes the field options (documented usage); two options never name the same path",
+		"combinations are generated only where the statement settles them: two options never name the same path; a **.name option is combined with a concrete path only if name does not occur in that path (so the ** subtree can lie inside the concrete one - innermost decides - but never encloses its start); single-level wildcards are only given alone",
+		"PathSep(\".\") precedes the field options (documented usage; the options hard-wire the \".*\" suffix, other separators are not generated)",
+		"an Option is a value: a Merge call's result depends on the options passed to THAT call only, not on calls the same Option value took part in before",
 		"merge model and canonical comparison as in C01",
 	}
 }
